@@ -205,11 +205,10 @@ impl Story {
         if missing_externals.is_empty() {
             self.has_validated_externals = true;
         } else {
-            let join: String = missing_externals
-                .iter()
-                .cloned()
-                .collect::<Vec<String>>()
-                .join(", ");
+            // Sorted, so that the message does not depend on hash-set order.
+            let mut names = missing_externals.iter().cloned().collect::<Vec<String>>();
+            names.sort();
+            let join: String = names.join(", ");
             let message = format!(
                 "ERROR: Missing function binding for external{}: '{}' {}",
                 if missing_externals.len() > 1 { "s" } else { "" },
